@@ -7,7 +7,7 @@ ASSUMPTIONS = [
     'tables are uninterpreted functions with one ground fact per database entry; absent (class, name) pairs are handled by an exact per-lookup closed-world constraint (descriptors of a class are numbered contiguously)',
     'superclass-chain depth bound = smallest k for which the solver proves every chain ends within k steps (reported in evidence)',
     'facts whose symbolic-index query does not finish within the cap (those using the superclass-chain lookup) are decided instance-wise: one solver query per database entry in an incremental session',
-    'outside the claim: "an instance of any class with its defaults is written and read back unchanged by both formats" (whole pipelines); lookups on databases other than the bundled one (symbolic-database obligation M22 not built)',
+    'outside the claim: "an instance of any class with its defaults is written and read back unchanged by both formats" (whole pipelines); lookups: decided by M20 on databases that have the shapes of the bundled one (chain depths, inherited defaults, serializes-as target kinds, all recomputed from the real database), not on the 797-class database itself',
 ]
 TRUSTED = ['tools/dbdump + serde decoding of database.msgpack', 'z3 4.8.12 (primary), cvc5 1.0 (cross-check)', 'the SMT-LIB table generator vlib/ztables.py']
 RULE = 'one obligation per closure fact; the negated fact over symbolic (or, instance-wise, every) class / descriptor / default index must be unsat; non-trivial = decided unsat with a non-empty domain and the sanity query (must be sat) satisfied'
@@ -94,6 +94,8 @@ def run(tier, seed, t0, only=None):
     else:
         ob.status, ob.detail = C.INCONCLUSIVE, 'sanity query is %s' % r['z3']
     obs.append(ob)
+    if not only or any(o.startswith('M20') for o in only):
+        obs += lookup_obligations(db, depth)
     extra = dict(classes=len(T.classes), property_descriptors=len(T.props), defaults=len(T.defaults), enums=len(T.enums), chain_depth=depth)
     return C.finish('C16', tier, seed, obs, t0, ASSUMPTIONS, TRUSTED, RULE, extra_cov=extra)
 
@@ -109,3 +111,49 @@ def describe(T, var, k):
     except IndexError:
         pass
     return '%s=%d' % (var, k)
+
+
+def serializes_as_shapes(db):
+    """kinds of descriptor that SerializesAs targets have in the real database"""
+    shapes = {}
+    for cn, c in db['Classes'].items():
+        for pn, p in c['Properties'].items():
+            k = p['Kind']
+            ser = k.get('Canonical', {}).get('Serialization') if isinstance(k, dict) else None
+            if isinstance(ser, dict) and 'SerializesAs' in ser:
+                tp = c['Properties'].get(ser['SerializesAs'])
+                if tp is None:
+                    sh = 'missing'
+                elif 'Alias' in tp['Kind']:
+                    sh = 'alias_back' if tp['Kind']['Alias']['AliasFor'] == pn else 'alias_other'
+                else:
+                    s_ = tp['Kind']['Canonical']['Serialization']
+                    sh = 'canonical:%s' % (s_ if isinstance(s_, str) else list(s_)[0])
+                shapes.setdefault(sh, []).append('%s.%s' % (cn, pn))
+    return shapes
+
+
+def lookup_obligations(db, depth):
+    """M20: the lookup functions themselves (MIR symbolic execution) on databases with the shapes of the real one"""
+    from ..mirsym import binrun, lookupcheck
+    binrun.refresh_mir()
+    shapes = serializes_as_shapes(db)
+    inherit = 0
+    for cn, c in db['Classes'].items():          # how far defaults are inherited in the real database
+        seen, cur, lvl = set(c['DefaultProperties']), c, 0
+        while cur.get('Superclass'):
+            cur = db['Classes'][cur['Superclass']]
+            lvl += 1
+            if set(cur['DefaultProperties']) - seen:
+                inherit = max(inherit, lvl)
+            seen |= set(cur['DefaultProperties'])
+    dmax = depth + 1
+    groups = [
+        dict(id='M20.chain', desc='superclasses / superclasses_iter / has_superclass return the whole chain down to the root', bounds='chains of 1..%d classes (the real maximum is %d, decided by Z5.depth)' % (dmax, depth),
+             cases=[dict(what='chain', depth=d) for d in range(1, dmax + 1)], budget=300),
+        dict(id='M20.default', desc='find_default_property returns the nearest definition on the chain and None when nobody defines it', bounds='chains of 1..%d classes, the default defined at one or two levels (the real database inherits over up to %d levels)' % (min(dmax, 5), inherit),
+             cases=[dict(what='default', depth=d, at=at) for d in range(1, min(dmax, 5) + 1) for at in ([()] + [(j,) for j in range(d)] + [(j, k) for j in range(d) for k in range(j + 1, d)])], budget=300),
+        dict(id='M20.serialized', desc='find_property_descriptors resolves a serializes-as target to the descriptor of that name for every target kind the real database contains, through the canonical name and an alias, on the class and a subclass',
+             bounds='target kinds in the database: %s' % {k: len(v) for k, v in shapes.items()}, cases=[dict(what='ser', shape=k) for k in sorted(shapes) if k != 'missing'], budget=300),
+    ]
+    return binrun.run(groups, ('C16',), module=lookupcheck)
